@@ -13,7 +13,7 @@ from xvlib.core import Check
 from xvlib.frontend import AnalysisBroken
 from xvlib.absint import run_function, Inconclusive
 from xvlib.errstate import Summaries, scan_path, returns_sentinel, error_param, SETTERS, outcome
-from xvlib.coverage import Coverage
+from xvlib.coverage import Coverage, data_return_ranges
 from xvlib.facts import walk, show, strip_casts
 from xvlib.normform import Rat
 
@@ -45,6 +45,7 @@ def run(prog, tier):
                 ['A1 a resolved compound has >= 1 element; A2 mass fractions are > 0',
                  'A3 the signed quantities f\', f\'\' are not exactly 0.0 for valid input, so == 0.0 on them is read as failure',
                  'A4 untested allocations succeed',
+                 'A5 atom counts delivered by a successful CompoundParserSimple are positive (established by the C07 rules on its merge and subscript code)',
                  'overflow/underflow of finite arithmetic is not decided'])
     notes = []
 
@@ -56,7 +57,10 @@ def run(prog, tier):
         iv = it.interval_of(b, st)
         st.notes.append(('div', node, '/', iv, b))
 
-    summ = Summaries(prog, skip=('CompoundParserSimple', 'add_compound_data'), on_math=on_math, on_div=on_div)
+    # ranges of the table accessors (hull of the data file and the sentinel), e.g. AtomicWeight in [0, 257]
+    ranges = data_return_ranges(prog)
+    chk.coverage_extra['data_return_ranges'] = {k: repr(v) for k, v in ranges.items()}
+    summ = Summaries(prog, skip=('CompoundParserSimple', 'add_compound_data'), on_math=on_math, on_div=on_div, call_ranges=ranges)
     cov = Coverage(prog, summ)
     nfun = 0
     for name in sorted(summ.paths):
